@@ -267,7 +267,11 @@ def plan(tier):
     nl = len(LAYOUTS)
     # histories without a crash: layouts of the later runs, thresholds and confidences symbolic
     for l0 in range(nl):
-        P.append(Part(H + "h_history", {"runs": 2, "fix": {"l0": l0, "kill_run": -1}}, "history[2 runs|l0=%d]" % l0, group="history", timeout=1800, path_timeout=120))
+        for s0, s1 in ((True, True), (False, True), (True, False)):
+            if (s0, s1) != (True, True) and tier != "thorough" and l0 not in (0, 1):
+                continue
+            P.append(Part(H + "h_history", {"runs": 2, "fix": {"l0": l0, "kill_run": -1, "s0": s0, "s1": s1}},
+                          "history[2 runs|l0=%d,stats=%s%s]" % (l0, "y" if s0 else "n", "y" if s1 else "n"), group="history", timeout=1800, path_timeout=120))
     # histories with a killed run: crash point symbolic (every write() of the entry), thresholds/confidences fixed
     calm = {"t0": 0, "t1": 0, "t2": 0, "ca": 1, "cb": 1, "cc": 1, "s0": True, "s1": True, "s2": True}
     pairs = [(a, b) for a in range(nl) for b in range(nl)]
@@ -278,7 +282,7 @@ def plan(tier):
     if tier == "thorough":
         for a in range(nl):
             for b in range(nl):
-                P.append(Part(H + "h_history", {"runs": 3, "fix": {"l0": a, "l1": b, "kill_run": -1}}, "history[3 runs|l0=%d,l1=%d]" % (a, b), group="history", timeout=3000, path_timeout=200))
+                P.append(Part(H + "h_history", {"runs": 3, "fix": {"l0": a, "l1": b, "kill_run": -1, "s0": True, "s1": a % 2 == 0, "s2": True}}, "history[3 runs|l0=%d,l1=%d]" % (a, b), group="history", timeout=3000, path_timeout=200))
                 P.append(Part(H + "h_history", {"runs": 3, "fix": dict(calm, l0=a, l1=b, l2=a, kill_run=1)}, "crash[run 2 of 3 killed|l0=%d,l1=%d,l2=%d]" % (a, b, a), group="crash", timeout=3000, path_timeout=200))
     for tw, kill in (("killed", 0), ("after-kill", 0), ("hit", -1)):
         P.append(Part(H + "h_history", {"runs": 2, "twin": tw, "fix": dict(calm, l0=0, l1=0, kill_run=kill)}, "history.twin[%s]" % tw, kind="twin", group="history", timeout=900))
